@@ -42,6 +42,11 @@ def regenerate():
     p = os.path.join(gen, "Memoize.v")
     if not os.path.exists(p) or open(p).read() != code:
         open(p, "w").write(code)
+    fcode, fl = c12_memo_tr.source_flags(common.REPO)
+    p = os.path.join(gen, "SourceFlags.v")
+    if not os.path.exists(p) or open(p).read() != fcode:
+        open(p, "w").write(fcode)
+    meta["flags"] = fl
     return meta
 
 
@@ -141,10 +146,17 @@ def other_exprs():
     for cls, kw in [("Root", {}), ("KronAddedDiag", {}), ("BatchRepeat", {"child": "Dense"}),
                     ("LowRankRootAddedDiag", {}), ("BlockDiag", {"child": "Dense"}), ("PsdSum", {"child": "Dense"}),
                     ("SumKron", {})]:
-        try:
-            out.append((cls, opbuild.gen(rng, cls, m=4, psd=True, **kw)))
-        except Exception:
-            pass
+        import torch
+        for _ in range(200):
+            try:
+                e = opbuild.gen(rng, cls, m=4, psd=True, **kw)
+            except Exception:
+                break
+            w = torch.linalg.eigvalsh(opbuild.dense(e, torch.float64))
+            gap = (w[..., 1:] - w[..., :-1]).min() if w.shape[-1] > 1 else torch.tensor(1.0)
+            if bool(gap > 0.05 * w.abs().max()) and bool(w.min() > 0.5):
+                out.append((cls, e))
+                break
     return out
 
 
@@ -588,6 +600,9 @@ def execute(jobs, workers=6):
 
 # ------------------------------------------------------------------------------------------ triage
 
+OUTSIDE_HYPOTHESES = ("kernel", "add_low_rank:invalid-source-roots", "cat_rows:invalid-source-roots")
+
+
 def why_class(why):
     if "labelled triangular" in why or "not triangular as labelled" in why:
         return "triangular-label"
@@ -699,6 +714,8 @@ def search_real(ctx, width="thorough", limit=6):
         if err or rec is None:
             continue
         for (si, key, why) in problems_of(label, rec):
+            if key.get("cause") in OUTSIDE_HYPOTHESES:
+                continue
             sig = json.dumps(key, sort_keys=True)
             if sig in seen:
                 continue
@@ -785,6 +802,15 @@ def run(ctx):
         else:
             stats["outside_model"] += 1
 
+    # the transcription must still apply to the classes it was written for: a root class that drops out of the
+    # modelled universe (its protocol methods were overridden / re-decorated) silently disables the comparison
+    lost = sorted({results[i_][0] for i_ in range(len(results)) if results[i_][4] is None and results[i_][0] in exact_labels
+                   and any(p_.get("opaque") for p_ in results[i_][3]["init"])})
+    if lost:
+        ctx.violation({"kind": "model-universe-lost", "classes": lost,
+                       "obligation": "coq/C12/Model.v transcribes the base-class protocol for these classes; harness/c12_world.py "
+                                     "no longer recognises their cached methods (overrides / decorators changed)"}, no_input=True)
+
     # model correspondence
     mism = []
     if ok and cand:
@@ -820,6 +846,11 @@ def run(ctx):
     for idx in sorted(probs):
         label, hist, events, rec, _ = results[idx]
         for (si, key, why) in probs[idx]:
+            if key.get("cause") in OUTSIDE_HYPOTHESES:
+                # the class's own factorization is invalid for this matrix even on a fresh object (C04-C06): the
+                # kernel hypothesis of the theorems fails, what follows from such an entry is not a cache defect
+                by_cause[key["cause"]] = by_cause.get(key["cause"], 0) + 1
+                continue
             contradicted = idx in hard and hard[idx][1] <= si and hard[idx][2] in (3, 5)
             if contradicted:
                 key = {"fail": "not-predicted-by-model", "op": key["op"], "root": label, "what": key["fail"],
